@@ -4,13 +4,10 @@ Python values (None, bool, int, float, str incl. lone surrogates, list/tuple, di
     n | t | f | i<dec> | d<m>p<e> | dz | dinf | dninf | dnan | s<hex cp>.<hex cp>… | [<k> … | {<k> k v …
 """
 import math
-import sys
 
-# ints of up to ~10^4 digits travel in decimal
-try:
-    sys.set_int_max_str_digits(0)
-except AttributeError:      # pragma: no cover
-    pass
+# NOTE: never touch sys.set_int_max_str_digits here: the code under test runs in this interpreter
+# and CPython's 4300-digit limit is part of the behaviour being checked (C05, F6).  Every int
+# that json.loads returns, and every int the generators make, is below the limit.
 
 
 class NotJ(TypeError):
@@ -37,31 +34,43 @@ def str_tok(s):
 
 
 def _enc(v, out):
-    if v is None:
-        out.append('n')
-    elif v is True:
-        out.append('t')
-    elif v is False:
-        out.append('f')
-    elif type(v) is int:
-        out.append('i' + str(v))
-    elif type(v) is float:
-        out.append(float_tok(v))
-    elif type(v) is str:
-        out.append(str_tok(v))
-    elif type(v) in (list, tuple):
-        out.append('[' + str(len(v)))
-        for x in v:
-            _enc(x, out)
-    elif type(v) is dict:
-        out.append('{' + str(len(v)))
-        for k, x in v.items():
-            if type(k) is not str:
-                raise NotJ(f'dict key {k!r}')
-            out.append(str_tok(k))
-            _enc(x, out)
-    else:
-        raise NotJ(repr(type(v)))
+    """iterative (values nested ~1500 deep come back from json.loads)"""
+    stack = [v]
+    while stack:
+        v = stack.pop()
+        if v is None:
+            out.append('n')
+        elif v is True:
+            out.append('t')
+        elif v is False:
+            out.append('f')
+        elif type(v) is _Tok:
+            out.append(v.t)
+        elif type(v) is int:
+            out.append('i' + str(v))
+        elif type(v) is float:
+            out.append(float_tok(v))
+        elif type(v) is str:
+            out.append(str_tok(v))
+        elif type(v) in (list, tuple):
+            out.append('[' + str(len(v)))
+            stack.extend(reversed(v))
+        elif type(v) is dict:
+            out.append('{' + str(len(v)))
+            for k, x in reversed(list(v.items())):
+                if type(k) is not str:
+                    raise NotJ(f'dict key {k!r}')
+                stack.append(x)
+                stack.append(_Tok(str_tok(k)))
+        else:
+            raise NotJ(repr(type(v)))
+
+
+class _Tok:
+    __slots__ = ('t',)
+
+    def __init__(self, t):
+        self.t = t
 
 
 def enc(v):
@@ -131,13 +140,10 @@ def dec_prefix(toks, i=0):
 
 def same(a, b):
     """structural identity at the J level: type-exact (True is not 1, 1 is not 1.0), NaN equals
-    NaN, -0.0 differs from 0.0, dict order matters, tuple == list"""
-    if type(a) in (list, tuple) and type(b) in (list, tuple):
-        return len(a) == len(b) and all(same(x, y) for x, y in zip(a, b))
-    if type(a) is not type(b):
+    NaN, -0.0 differs from 0.0, dict order matters, tuple == list.  (Iterative: via `enc`.)"""
+    if a is b:
+        return True
+    try:
+        return enc(a) == enc(b)
+    except NotJ:
         return False
-    if type(a) is dict:
-        return list(a.keys()) == list(b.keys()) and all(same(a[k], b[k]) for k in a)
-    if type(a) is float:
-        return float_tok(a) == float_tok(b)
-    return a == b
